@@ -181,8 +181,22 @@ def sweep(model, rep):
                 rep.violation('C07.raw', q, what, f'{mem.module}:{ln}')
             else:
                 rep.holds('C07.raw', q, '', mem.loc)
+    # private module-level helpers (`_name`) are evaluated inlined into every caller, with the units the callers really pass: a
+    # standalone evaluation with arbitrary argument units would test a contract the helper does not have (its parameters arrive in
+    # the unit of the object they were derived from).  Skipped here when every caller is itself swept and the helper is not opaque.
+    called_by = {}
+    for qual, cname_, fn_ in [(f_, None, n_) for f_, (_, n_) in model.functions.items()] + \
+            [(m_.qualname, c_, m_.node) for c_, ci_ in model.classes.items() for m_ in ci_.all_members()]:
+        for x in ast.walk(fn_):
+            if isinstance(x, ast.Call) and isinstance(x.func, ast.Name) and x.func.id in model.functions and x.func.id != qual:
+                called_by.setdefault(x.func.id, set()).add(qual)
     for fname, (mod, fn) in sorted(model.functions.items()):
         if fname in COVERED_ELSEWHERE or mod in EXCLUDED:
+            continue
+        if fname.startswith('_') and fname not in OPAQUE and called_by.get(fname) and not any(
+                c in EXCLUDED or c.split('.')[0] == 'Solver' for c in called_by[fname]) and fname not in notrun:
+            covered.add((mod, fn.lineno))
+            rep.holds('C07.raw', fname, f'private helper, evaluated inlined into {sorted(called_by[fname])[:3]}', f'{mod}:{fn.lineno}')
             continue
         sx = SX(model)
         sx.loop_handler = reduction_loop
